@@ -596,20 +596,25 @@ def c17(ctx):
     # ---- parsers and decoders
     for fmt in ("cborl", "ubjson", "json"):
         rows = [r["doc"] for r in GENS[fmt](ctx, "lang", quick=True) if r["class"] == "complete" and 2 <= len(r["doc"]) <= 24]
-        if fmt == "json":
-            rows = [d + ([0x0a] if not is_container_doc("json", d) else []) for d in rows]
         docs = pick_diverse(rows, lambda d: (len(d) // 3, d[0], d[1], d[-1]), A, rnd)
+        if fmt == "json":
+            # numbers of every kind as bare top-level documents (ended by end of input for Parse/Write+end)
+            nums = [list(t) for t in (b"1.5", b"2e3", b"-7", b"42")]
+            docs = docs[: A - 3] + nums[:3]
+
+        def sep(d, comp, fmt=fmt):
+            return d + ([0x0a] if fmt == "json" and comp == "dec" and not is_container_doc("json", d) else [])
         for h in range(0, H + 1):
             for hist in itertools.product(range(len(docs)), repeat=h):
                 for pi in range(len(docs)):
                     if h == H and ctx.quick and rnd.random() < 0.5:
                         continue
-                    hd = [docs[i] for i in hist]
                     for comp, mode in (("parser", "parse"), ("parser", "write"), ("dec", "bytes"), ("dec", "reader")):
+                        hd = [sep(docs[i], comp) for i in hist]
                         kw = {}
                         if mode == "reader":
                             kw = dict(buf=rnd.choice([1, 2, 3, 7, 64]), plan=[rnd.randint(1, 5) for _ in range(rnd.randint(0, 12))], eofwith=rnd.random() < 0.5)
-                        cases.append(case("C17", "reuse", fmt, doc=docs[pi], sub=dict(component=comp, mode=mode, history=hd),
+                        cases.append(case("C17", "reuse", fmt, doc=sep(docs[pi], comp), sub=dict(component=comp, mode=mode, history=hd),
                                           origin="%s/%s history %s" % (comp, mode, hist), **kw))
     # ---- iterator and unfolder: histories of TLC-enumerated Go programs (shared types: first use vs cached use of a type)
     rows = [r for r in gen_gotypes(ctx, quick=True) if r["T"]["k"] in ("struct", "slice", "map", "ptr", "iface")]
@@ -960,7 +965,8 @@ def enc_doc(fmt, v):
     return out + [ord("}")]
 
 
-ALIAS_STRS = ["x", "hello world", "esc\n\"q\"\\", "\u00e9\u20ac", "L" * 70, "m" * 300, "", "tab\there", "a/b"]
+ALIAS_STRS = ["x", "hello world", "esc\n\"q\"\\", "\u00e9\u20ac", "L" * 70, "m" * 300, "", "tab\there", "a/b",
+              "long\n" + "e" * 90, "q\"" * 45, "t\t" + "\u00e9" * 60, "n\n" * 700, "w\\" + "z" * 55]
 
 
 def c15(ctx):
